@@ -95,6 +95,13 @@ def run(eng, tier):
                     okd = den == F(V(V(F(base, 'class'), 'Convertible', 'status'), 'Ready', 'converted_base'), 'denom') or Equiv(p).same(den, F(CFG, 'base_denom'))
                     eng.ob(okd, PROP, 'I2-denom', wv, '%s: approver escrow denomination becomes %s' % (wv, K(den)), where=w['site'])
     eng.ob(nI2 >= 3, PROP, 'floor-I2-sites', 'count', 'fewer than 3 writers of approved asks found (approve, match, partial reject expected); found %d obligations' % nI2)
+    # the approver gets back exactly the cancelled part (transfer tables of the ask reversals, shared with C04)
+    import c04 as _c04
+    old = _c04.PROP; _c04.PROP = PROP
+    try:
+        for rv in ('CancelAsk', 'ExpireAsk', 'RejectAsk'): _c04.ask_side(eng, rv)
+    finally:
+        _c04.PROP = old
     # pending never matched
     for p in eng.paths('execute', 'ok', 'ExecuteMatch'):
         A = ask_of('ExecuteMatch')
